@@ -25,7 +25,7 @@
     code (`PyX.basename`, a hand-written rendering of `os.path.basename` for POSIX paths — `c03_basename_spec`, and
     compared with the real `location_from_event` on boundary paths by the `loc` stream): a tracepoint path with a
     directory part never acts (`c03_dir_path_never_matches`), same-named files in different directories are one file
-    to every location (`c03_same_name_any_dir`); at events of a file with another name NO location (nameless and
+    to every line / named method location (`c03_same_name_any_dir`; not to a nameless one, see there); at events of a file with another name NO location (nameless and
     unmatchable ones included) says "here" or raises (`c03_other_file_never`, `c03_other_file_no_action`).
   * Delivered events only: `__trace_call` returns `None` for a `call` event while no tracepoint is installed, so a
     frame entered during that time is never line-traced, also after a configuration arrives; the property (and
@@ -298,15 +298,19 @@ theorem c03_dir_path_never_matches (p : String) (hp : '/' ∈ p.toList) (n : Int
       have := ((c03_func_iff p f ev).mp h).2.1
       exact absurd (this ▸ hp) (basename_no_slash ev.path)
 
-/-- **the directory of the executing file is never looked at** — two events that agree on kind, file NAME, line and
-    function get the same answer from every location (line, method with or without a name, unmatchable): same-named
-    files in different directories are one file to a tracepoint ("a source file with that name"). -/
-theorem c03_same_name_any_dir (l : Loc) (ev ev' : Event) (hk : ev.kind = ev'.kind)
+/-- **the directory of the executing file is never looked at** (line tracepoints and method tracepoints WITH a name —
+    the tracepoints the property speaks of) — two events that agree on kind, file NAME, line and function get the same
+    answer: same-named files in different directories are one file to such a tracepoint ("a source file with that
+    name").  NOT claimed for method tracepoints without a name (`Loc.nameless`, `Loc.nosource`): there the answer of the
+    code comes from the FRAME's own source (`inspect.getsourcelines(frame)`), which differs between same-named files
+    (3 lines / 5 lines / compiled from a string: here / not here / OSError — probe
+    notes/probes/p_c03_nameless_same_name_dirs.py); the model's getsourcelines oracle is part of the location and keyed
+    by `co_name` only, so it cannot express that difference (instance of `C03/nameless-method-location`). -/
+theorem c03_same_name_any_dir (p : String) (n : Int) (f : String) (ev ev' : Event) (hk : ev.kind = ev'.kind)
     (hp : PyX.basename ev.path = PyX.basename ev'.path) (hl : ev.line = ev'.line) (hf : ev.func = ev'.func) :
-    l.check ev = l.check ev' ∧ l.matches ev = l.matches ev' := by
-  have : l.check ev = l.check ev' := by
-    simp only [Loc.check, locationFromEvent, hk, hp, hl, hf]
-  exact ⟨this, by simp only [Loc.matches, this]⟩
+    (Loc.line p n).matches ev = (Loc.line p n).matches ev' ∧ (Loc.func p f).matches ev = (Loc.func p f).matches ev' := by
+  refine ⟨?_, ?_⟩ <;>
+    simp only [Loc.matches, Loc.check, locationFromEvent, hk, hp, hl, hf]
 
 example : (Loc.line "src/a.py" 3).matches ⟨"line", "src/a.py", 3, "f", 0, 0, [], []⟩ = false ∧
     (Loc.line "a.py" 3).matches ⟨"line", "src/a.py", 3, "f", 0, 0, [], []⟩ = true ∧
